@@ -16,6 +16,9 @@ impl G {
     pub fn below(&mut self, n: u64) -> u64 {
         self.tape.below(n)
     }
+    pub fn forced(&mut self, v: u64, n: u64) -> u64 {
+        self.tape.forced(v, n)
+    }
     pub fn usize_below(&mut self, n: usize) -> usize {
         self.tape.below(n as u64) as usize
     }
